@@ -259,7 +259,9 @@ func (c *tracingHTTP2Conn) setMaxStreamIDLocked(maxStreamID uint32, err error) {
 		if streamID > maxStreamID {
 			delete(c.streams, streamID)
 			stream.requestTracer.emitUnfinished()
-			stream.responseTracer.emitUnfinished()
+			if stream.responseTracer.builder != nil {
+				stream.responseTracer.emitUnfinished()
+			}
 			stream.builder.add(&ResponseBodyEnd{Err: err})
 		}
 	}
@@ -273,7 +275,9 @@ func (c *tracingHTTP2Conn) cancelAll(err error) {
 			delete(c.streams, streamID)
 			if c.isServer {
 				stream.requestTracer.emitUnfinished()
-				stream.responseTracer.emitUnfinished()
+				if stream.responseTracer.builder != nil {
+					stream.responseTracer.emitUnfinished()
+				}
 				stream.builder.add(&ResponseBodyEnd{Err: err})
 			} else {
 				// TODO: We shouldn't add RequestBodyEnd event if the trace
